@@ -138,6 +138,7 @@ type outcome struct {
 	convOK    bool
 	conv      string // canonical view of the converted schema + FieldInfo
 	sw        *federation.SchemaWithFederationInfo
+	panics    []string
 }
 
 func build(set schemaSet, n naming) (map[string]map[string]*federation.IntrospectionQueryResult, error) {
@@ -236,7 +237,16 @@ func evaluate(set schemaSet, n naming) (*outcome, error) {
 	if err != nil {
 		return nil, err
 	}
-	merged, err := federation.MergeIntrospectionSchemas(in)
+	var merged *federation.IntrospectionQueryResult
+	func() {
+		defer func() {
+			if p := recover(); p != nil {
+				err = fmt.Errorf("panic: %v", p)
+				o.panics = append(o.panics, fmt.Sprintf("MergeIntrospectionSchemas: %v", p))
+			}
+		}()
+		merged, err = federation.MergeIntrospectionSchemas(in)
+	}()
 	if err != nil {
 		o.mergeErr = err.Error()
 	} else {
@@ -258,7 +268,16 @@ func evaluate(set schemaSet, n naming) (*outcome, error) {
 	if err != nil {
 		return nil, err
 	}
-	sw, err := federation.ConvertVersionedSchemas(in2)
+	var sw *federation.SchemaWithFederationInfo
+	func() {
+		defer func() {
+			if p := recover(); p != nil {
+				err = fmt.Errorf("panic: %v", p)
+				o.panics = append(o.panics, fmt.Sprintf("ConvertVersionedSchemas: %v", p))
+			}
+		}()
+		sw, err = federation.ConvertVersionedSchemas(in2)
+	}()
 	if err != nil {
 		o.convErr = err.Error()
 	} else {
@@ -340,62 +359,140 @@ type diagnosis struct {
 	other       []string // anything else (the service itself does not fully support what it was sent)
 }
 
-func diagnoseValue(per, merged *schemaDef, where string, val interface{}, t *tref, d *diagnosis) {
+// diagnoseValue walks a value the way the receiving VERSION checks it (t is
+// the version's type at this position) and attributes every rejection:
+// "superset" when the rejected element is something the receiving SERVICE
+// does not support in all of its versions (pt, the type at the same position
+// in the service's intersection, is nil or lacks the enum value) and therefore
+// only reached the merged schema through other services; "other" when the
+// service's own intersection claims support for it.
+func (x *diagCtx) value(where string, val interface{}, t, pt *tref, foreign bool, d *diagnosis) {
+	ver, per, merged := x.ver, x.per, x.merged
+	reject := func(kind, msg string) {
+		if pt == nil && foreign {
+			d.superset = append(d.superset, kind+":"+where+": "+msg+" (the receiving service does not support this input in all of its versions; other services contributed it)")
+		} else {
+			d.other = append(d.other, where+": "+msg)
+		}
+	}
 	if t.Kind == "NON_NULL" {
 		if val == nil {
-			d.other = append(d.other, where+": required value missing")
+			reject("input", "required value missing")
 			return
 		}
 		t = t.Of
 	}
+	if pt != nil && pt.Kind == "NON_NULL" {
+		pt = pt.Of
+	}
 	if val == nil {
+		return
+	}
+	if pt != nil && (pt.Kind != t.Kind || pt.Name != t.Name) {
+		d.other = append(d.other, where+": version and service intersection disagree on the type")
 		return
 	}
 	switch t.Kind {
 	case "LIST":
-		if l, ok := val.([]interface{}); ok {
-			for _, e := range l {
-				diagnoseValue(per, merged, where+"[]", e, t.Of, d)
-			}
-		} else {
-			d.other = append(d.other, where+": not a list")
+		l, ok := val.([]interface{})
+		if !ok {
+			reject("input", "not a list")
+			return
+		}
+		var pof *tref
+		if pt != nil {
+			pof = pt.Of
+		}
+		for _, e := range l {
+			x.value(where+"[]", e, t.Of, pof, foreign, d)
+		}
+	case "SCALAR":
+		ok := true
+		switch t.Name {
+		case "string", "ID", "id":
+			_, ok = val.(string)
+		case "bool":
+			_, ok = val.(bool)
+		case "float64", "float32", "int64", "int32", "int16", "int8", "int", "uint64", "uint32", "uint16", "uint8":
+			_, ok = val.(float64)
+		}
+		if !ok {
+			reject("input", fmt.Sprintf("value %v is not a %s", val, t.Name))
 		}
 	case "ENUM":
-		s, _ := val.(string)
+		s, isStr := val.(string)
+		ve := ver.Types[t.Name]
+		if isStr && ve != nil && hasStr(ve.EnumValues, s) {
+			return
+		}
 		pe := per.Types[t.Name]
-		if pe == nil || !hasStr(pe.EnumValues, s) {
-			if me := merged.Types[t.Name]; me != nil && hasStr(me.EnumValues, s) {
-				d.superset = append(d.superset, fmt.Sprintf("enum:%s: value %s of %s is not supported by the receiving service", where, s, t.Name))
-			} else {
-				d.other = append(d.other, fmt.Sprintf("%s: value %s not in merged enum %s", where, s, t.Name))
+		me := merged.Types[t.Name]
+		othersKnow := false
+		for _, o := range x.others {
+			if oe := o.Types[t.Name]; oe != nil && isStr && hasStr(oe.EnumValues, s) {
+				othersKnow = true
 			}
+		}
+		if (pt == nil && foreign) || ((pe == nil || !hasStr(pe.EnumValues, s)) && othersKnow && me != nil && hasStr(me.EnumValues, s)) {
+			d.superset = append(d.superset, fmt.Sprintf("enum:%s: value %v of %s is not supported by the receiving service", where, val, t.Name))
+		} else {
+			d.other = append(d.other, fmt.Sprintf("%s: value %v of enum %s rejected although every version should know it", where, val, t.Name))
 		}
 	case "INPUT_OBJECT":
 		m, ok := val.(map[string]interface{})
-		pi := per.Types[t.Name]
-		if !ok || pi == nil {
-			d.other = append(d.other, where+": bad input object")
+		vi := ver.Types[t.Name]
+		if !ok || vi == nil {
+			reject("input", "not an input object")
 			return
 		}
-		for _, f := range pi.InputFields {
-			diagnoseValue(per, merged, where+"."+f.Name, m[f.Name], f.Type, d)
+		var pi *typeDef
+		if pt != nil {
+			pi = per.Types[t.Name]
+		}
+		for _, f := range vi.InputFields {
+			var pft *tref
+			fforeign := foreign
+			if pi != nil {
+				if pf := pi.inputField(f.Name); pf != nil {
+					pft = pf.Type
+				} else {
+					// the service's intersection lacks this input field: did other services contribute it?
+					fforeign = false
+					for _, o := range x.others {
+						if oi := o.Types[t.Name]; oi != nil && oi.inputField(f.Name) != nil {
+							fforeign = true
+						}
+					}
+				}
+			}
+			x.value(where+"."+f.Name, m[f.Name], f.Type, pft, fforeign, d)
 		}
 	}
 }
 
-func diagnose(per, merged *schemaDef, typeName string, ss *graphql.SelectionSet, tok map[string]string, d *diagnosis) {
+// diagCtx: the receiving version's schema, what the receiving service supports
+// in all versions, what the OTHER services support in all of theirs, and the
+// merged schema (all with service tokens in Federation field names).
+type diagCtx struct {
+	ver, per, merged *schemaDef
+	others           []*schemaDef
+	tok              map[string]string
+}
+
+func (x *diagCtx) selections(typeName string, ss *graphql.SelectionSet, d *diagnosis) {
+	ver, per, merged, tok := x.ver, x.per, x.merged, x.tok
 	if ss == nil {
 		return
 	}
-	t := per.Types[typeName]
+	t := ver.Types[typeName]
 	if t == nil {
-		d.other = append(d.other, "type "+typeName+" not supported by the receiving service")
+		d.other = append(d.other, "type "+typeName+" unknown to the receiving version")
 		return
 	}
 	if t.Kind == "UNION" {
 		for _, f := range ss.Fragments {
 			if hasStr(t.Possible, f.On) {
-				diagnose(per, merged, f.On, f.SelectionSet, tok, d)
+				x.selections(f.On, f.SelectionSet, d)
 			}
 		}
 		return
@@ -418,7 +515,7 @@ func diagnose(per, merged *schemaDef, typeName string, ss *graphql.SelectionSet,
 			continue
 		}
 		if f == nil {
-			d.other = append(d.other, fmt.Sprintf("field %s.%s not supported by every version of the receiving service", typeName, s.Name))
+			d.other = append(d.other, fmt.Sprintf("field %s.%s unknown to the receiving version", typeName, s.Name))
 			continue
 		}
 		if len(f.Args) == 0 {
@@ -428,18 +525,53 @@ func diagnose(per, merged *schemaDef, typeName string, ss *graphql.SelectionSet,
 					ks = append(ks, k)
 				}
 				sort.Strings(ks)
-				d.superset = append(d.superset, fmt.Sprintf("arg:%s.%s: arguments %v are not supported by the receiving service", typeName, s.Name, ks))
+				var pf *fieldDef
+				if pt := per.Types[typeName]; pt != nil {
+					pf = pt.field(name)
+				}
+				othersTake := false
+				for _, o := range x.others {
+					if ot := o.Types[typeName]; ot != nil {
+						if of := ot.field(name); of != nil && len(of.Args) > 0 {
+							othersTake = true
+						}
+					}
+				}
+				if pf != nil && len(pf.Args) == 0 && othersTake {
+					d.superset = append(d.superset, fmt.Sprintf("arg:%s.%s: arguments %v are not supported by the receiving service", typeName, s.Name, ks))
+				} else {
+					d.other = append(d.other, fmt.Sprintf("%s.%s: arguments %v rejected although every version should know them", typeName, s.Name, ks))
+				}
 			}
 		} else {
+			var pf *fieldDef
+			if pt := per.Types[typeName]; pt != nil {
+				pf = pt.field(name)
+			}
 			for _, a := range f.Args {
-				diagnoseValue(per, merged, typeName+"."+s.Name+"("+a.Name+")", s.UnparsedArgs[a.Name], a.Type, d)
+				var pat *tref
+				foreign := false
+				if pf != nil {
+					if pa := pf.arg(a.Name); pa != nil {
+						pat = pa.Type
+					} else {
+						for _, o := range x.others {
+							if ot := o.Types[typeName]; ot != nil {
+								if of := ot.field(name); of != nil && of.arg(a.Name) != nil {
+									foreign = true
+								}
+							}
+						}
+					}
+				}
+				x.value(typeName+"."+s.Name+"("+a.Name+")", s.UnparsedArgs[a.Name], a.Type, pat, foreign, d)
 			}
 		}
-		diagnose(per, merged, f.Type.root().Name, s.SelectionSet, tok, d)
+		x.selections(f.Type.root().Name, s.SelectionSet, d)
 	}
 	for _, f := range ss.Fragments {
 		if f.On == typeName {
-			diagnose(per, merged, typeName, f.SelectionSet, tok, d)
+			x.selections(typeName, f.SelectionSet, d)
 		}
 	}
 }
@@ -498,13 +630,18 @@ func TestCheck(t *testing.T) {
 	run.Assume("root fields served by several services are routed with a seeded ServiceSelector among FieldInfo.Services (the default picks by map iteration)")
 	nSets := run.N(300, 20000)
 	nQueries := run.N(20, 50)
-	run.Each(nSets, 8, func(i int) {
+	// case indices >= nSets are the pinned reproducers of pinned_test.go
+	run.Each(nSets+len(pinnedSets()), 8, func(i int) {
 		fmt.Printf("CASE %d\n", i)
-		runCase(run, i, nQueries)
+		runCase(run, i, nSets, nQueries)
 	})
 }
 
-func makeSet(run *vlib.Run, i int) schemaSet {
+func makeSet(run *vlib.Run, i, nSets int) schemaSet {
+	if i >= nSets {
+		p := pinnedSets()[i-nSets]
+		return &setA{g: &genA{feat: map[string]int{"pinned:" + p.name: 1}}, set: p.set}
+	}
 	r := run.Rand("set", i)
 	if i%5 == 4 {
 		return newSetB(r)
@@ -513,8 +650,8 @@ func makeSet(run *vlib.Run, i int) schemaSet {
 	return &setA{g: g, set: g.versions()}
 }
 
-func runCase(run *vlib.Run, i int, nQueries int) {
-	set := makeSet(run, i)
+func runCase(run *vlib.Run, i, nSets, nQueries int) {
+	set := makeSet(run, i, nSets)
 	counts := set.counts()
 	rn := run.Rand("naming", i)
 	base := randomNaming(rn, counts)
@@ -571,6 +708,11 @@ func runCase(run *vlib.Run, i int, nQueries int) {
 		outs = append(outs, o)
 	}
 	b := outs[0]
+	for k, o := range outs {
+		if len(o.panics) > 0 {
+			viol(run, i, "panic", "", wit(map[string]interface{}{"what": "thunder panicked while merging well-formed introspection schemas", "naming_used": namings[k].String(), "panics": o.panics}))
+		}
+	}
 
 	// ---- oracle 1: metamorphic under renaming / permutation ----
 	anyFail, anyOK := false, false
@@ -681,6 +823,7 @@ func runCase(run *vlib.Run, i int, nQueries int) {
 				}))
 			}
 		}
+		fieldInfoBad := false
 		if b.convOK && len(model.Problems) == 0 {
 			_, support, err := convCanonical(b.sw, base.tokens())
 			if err == nil {
@@ -695,8 +838,14 @@ func runCase(run *vlib.Run, i int, nQueries int) {
 						bad = append(bad, fmt.Sprintf("%s: FieldInfo.Services=%v, services whose every version has it=%v", k, svcs, want))
 					}
 				}
+				// (objects that are in the merged type list but unreachable from the roots
+				// legitimately have FieldInfo entries; only the nil key is wrong)
+				if _, stray := b.sw.Fields[nil]; stray {
+					bad = append(bad, "FieldInfo has an entry under the nil field (a service was recorded for a field the merge dropped)")
+				}
 				sort.Strings(bad)
 				if len(bad) > 0 {
+					fieldInfoBad = true
 					viol(run, i, "fieldinfo", "", wit(map[string]interface{}{"what": "FieldInfo.Services differs from the services whose every version has the field", "fields": bad}))
 				}
 			}
@@ -705,8 +854,9 @@ func runCase(run *vlib.Run, i int, nQueries int) {
 		}
 
 		// ---- oracle 5: end to end ----
-		if b.convOK && len(model.Problems) == 0 {
-			servicesReached = endToEnd(run, i, set, base, b, mergedDef, model, nQueries, wit)
+		// (a field-to-service map already shown wrong is not executed: the planner would act on it)
+		if b.convOK && len(model.Problems) == 0 && !fieldInfoBad {
+			servicesReached = endToEnd(run, i, set, base, b, mergedDef, model, abstract, nQueries, wit)
 		}
 	}
 
@@ -731,7 +881,7 @@ func runCase(run *vlib.Run, i int, nQueries int) {
 	}
 }
 
-func endToEnd(run *vlib.Run, i int, set schemaSet, base naming, b *outcome, mergedDef *schemaDef, model *modelResult, nQueries int, wit func(map[string]interface{}) map[string]interface{}) int {
+func endToEnd(run *vlib.Run, i int, set schemaSet, base naming, b *outcome, mergedDef *schemaDef, model *modelResult, abstract [][]*schemaDef, nQueries int, wit func(map[string]interface{}) map[string]interface{}) int {
 	counts := set.counts()
 	svcIdx := map[string]int{}
 	for s, n := range base.svc {
@@ -801,6 +951,21 @@ func endToEnd(run *vlib.Run, i int, set schemaSet, base naming, b *outcome, merg
 		return sc
 	}
 
+	// self-check of the query generator: every query must validate, spec-strictly, against the merged schema
+	var selfSchema *graphql.Schema
+	if in, err := build(set, base); err == nil {
+		if sw2, err := federation.ConvertVersionedSchemas(in); err == nil {
+			var dummy int64
+			if installValidatorsMode(sw2.Schema, &dummy, &smu, true) == nil {
+				selfSchema = sw2.Schema
+			}
+		}
+	}
+	if selfSchema == nil {
+		run.Broken(fmt.Sprintf("case %d: cannot build the merged schema for the generator self-check", i))
+		return 0
+	}
+
 	reached := map[string]bool{}
 	for qi := 0; qi < nQueries; qi++ {
 		rq := run.Rand(fmt.Sprintf("query/%d", i), qi)
@@ -811,10 +976,28 @@ func endToEnd(run *vlib.Run, i int, set schemaSet, base naming, b *outcome, merg
 			run.Broken(fmt.Sprintf("case %d: generated query does not parse: %v: %s", i, err, text))
 			return len(reached)
 		}
+		if q2, err := graphql.Parse(text, map[string]interface{}{}); err == nil {
+			var root graphql.Type = selfSchema.Query
+			if q2.Kind == "mutation" {
+				root = selfSchema.Mutation
+			}
+			if err := graphql.PrepareQuery(ctx, root, q2.SelectionSet); err != nil {
+				run.Broken(fmt.Sprintf("case %d: generated query is not valid against the merged schema: %v: %s", i, err, text))
+				return len(reached)
+			}
+		}
 		rec.mu.Lock()
 		rec.queries = nil
 		rec.mu.Unlock()
-		_, _, err = ex.Execute(ctx, q, nil)
+		func() {
+			defer func() {
+				if p := recover(); p != nil {
+					err = fmt.Errorf("panic: %v", p)
+					viol(run, i, "panic", "", wit(map[string]interface{}{"what": "federation.Executor panicked on a query valid against the merged schema", "query": text, "panic": fmt.Sprint(p)}))
+				}
+			}()
+			_, _, err = ex.Execute(ctx, q, nil)
+		}()
 		if err != nil {
 			run.Count("e2e:execute_error:"+errKind(err), 1)
 			if os.Getenv("C09_DEBUG") != "" {
@@ -876,7 +1059,13 @@ func endToEnd(run *vlib.Run, i int, set schemaSet, base naming, b *outcome, merg
 				}
 				mergedTok := mergedDef.clone()
 				mergedTok.renameFed(base.tokens())
-				diagnose(model.PerService[s], mergedTok, rootName, sq.Sel, base.tokens(), d)
+				dc := &diagCtx{ver: abstract[s][v], per: model.PerService[s], merged: mergedTok, tok: base.tokens()}
+				for o, per := range model.PerService {
+					if o != s {
+						dc.others = append(dc.others, per)
+					}
+				}
+				dc.selections(rootName, sq.Sel, d)
 				// one violation per recognised cause; anything unrecognised stays unclassified
 				var classes []string
 				if len(d.other) == 0 {
@@ -904,7 +1093,7 @@ func endToEnd(run *vlib.Run, i int, set schemaSet, base naming, b *outcome, merg
 						"prepare_error": perr.Error(),
 						"diagnosis": map[string]interface{}{
 							"only_other_services_support": d.superset, "hop_from_unfederated_object": d.unfederated, "other": d.other},
-						"service_supports": strings.Split(strings.TrimSpace(model.PerService[s].canonical(nil)), "\n"),
+						"service_supports_in_all_versions": strings.Split(strings.TrimSpace(model.PerService[s].canonical(nil)), "\n"),
 					}))
 				}
 			}
